@@ -258,3 +258,23 @@ theorem walk_err3 (kt kr : Nat) :
 end walk
 
 end PsV
+
+namespace PsV
+variable {F : Type} [Field F] [LinearOrder F] [IsStrictOrderedRing F] {ε : F}
+
+/-- entrywise reading of `Row3` -/
+theorem Row3.get {k : Nat} : ∀ {ms es rs : List F}, Row3 ε k ms es rs →
+    ∀ (i : Nat) (m e r : F), ms[i]? = some m → es[i]? = some e → rs[i]? = some r → Acc ε k m e r
+  | [], [], [], _ => by intro i m e r h; simp at h
+  | m0 :: ms, e0 :: es, r0 :: rs, ⟨h1, h2⟩ => by
+    intro i m e r hm he hr
+    cases i with
+    | zero =>
+      simp only [List.getElem?_cons_zero, Option.some.injEq] at hm he hr
+      subst hm; subst he; subst hr
+      exact h1
+    | succ i =>
+      simp only [List.getElem?_cons_succ] at hm he hr
+      exact Row3.get h2 i m e r hm he hr
+
+end PsV
